@@ -67,7 +67,7 @@ def check(tr):
     # R2 completeness
     last_fetch = tr.last_fetch_seq
     if tr.exception is not None:
-        last_fetch = tr.fetches[-2]["s"] if len(tr.fetches) >= 2 else -1
+        last_fetch = tr.fetches[-2]["sc"] if len(tr.fetches) >= 2 else -1
     for (t, run), r in sorted(tr.runs.items()):
         if r["end"] == "exit" and r["code"] == 0 and r["s1"] <= last_fetch and (t, run) not in decision_seq:
             n = len(delivered.get((t, run), []))
